@@ -22,9 +22,15 @@ class QResult:
         return {'q': self.name, 'expect': self.expect, 'verdict': self.verdict, 's': round(self.secs, 3)}
 
 
-def _check(assume, extra, timeout_ms):
+def _check_once(assume, extra, timeout_ms, seed):
     s = z3.SolverFor('QF_BV')
-    s.set('timeout', timeout_ms)
+    s.set('timeout', int(timeout_ms))
+    if seed:
+        for k in ('random_seed', 'sat.random_seed'):
+            try:
+                s.set(k, seed)
+            except z3.Z3Exception:
+                pass
     for a in assume:
         s.add(a)
     for e in extra:
@@ -37,6 +43,18 @@ def _check(assume, extra, timeout_ms):
     if r == z3.unsat:
         return UNSAT, dt, None
     return UNKNOWN, dt, None
+
+
+def _check(assume, extra, timeout_ms):
+    """a query that comes back unknown is retried twice with other solver seeds (the solver's run time on one query varies
+    with the seed and with the order of assertions by orders of magnitude; a verdict of any attempt is a verdict)"""
+    total = 0.0
+    for seed in (0, 7, 23):
+        v, dt, m = _check_once(assume, extra, timeout_ms, seed)
+        total += dt
+        if v != UNKNOWN:
+            return v, total, m
+    return UNKNOWN, total, None
 
 
 def discharge(ob, timeout_ms=120000, stop_at_first=True, group_goals=True, case_mode=False):
